@@ -49,48 +49,180 @@ Proof.
   replace (d <=? 32767) with true by (symmetry; apply Z.leb_le; lia); reflexivity.
 Qed.
 
-(** JMP rel8, both modes: the form is chosen from the distance measured at the START of the
-    instruction, the field is relative to its END; correct exactly when rel-2 still fits. *)
-Lemma jmp_short_lands m addr dest rest : let rel := dest - addr in -126 <= rel <= 129 ->
-  lands m BJmp addr dest (gen_jmp m rel) rest.
+Lemma offset_size_4 d : ~ (-32768 <= d <= 32767) -> offset_size d = 4.
 Proof.
-  intros rel H. unfold gen_jmp. rewrite offset_size_1 by lia.
+  intros N. unfold offset_size.
+  destruct (-128 <=? d) eqn:E1; destruct (d <=? 127) eqn:E2; cbn [andb];
+    try (apply Z.leb_le in E1); try (apply Z.leb_le in E2); try lia;
+  destruct (-32768 <=? d) eqn:E3; destruct (d <=? 32767) eqn:E4; cbn [andb];
+    try (apply Z.leb_le in E3); try (apply Z.leb_le in E4); try lia; reflexivity.
+Qed.
+
+Lemma sx4 z rest : - 2 ^ 31 <= z < 2 ^ 31 -> take 4 (le 4 z ++ rest) = Some (le 4 z) /\ sx 4 (le 4 z) = z.
+Proof. intros H. apply sx_le; [lia|]. change (8 * Z.of_nat 4 - 1) with 31. exact H. Qed.
+Lemma sx2 z rest : -32768 <= z <= 32767 -> take 2 (le 2 z ++ rest) = Some (le 2 z) /\ sx 2 (le 2 z) = z.
+Proof. intros H. apply sx_le; [lia|]. change (8 * Z.of_nat 2 - 1) with 15. change (2 ^ 15) with 32768. lia. Qed.
+
+(** ---------------- JMP ---------------- *)
+
+(* rel8, 16-bit mode: chosen exactly when the displacement rel-2 fits *)
+Lemma jmp_short_lands addr dest rest : let rel := dest - addr in -126 <= rel <= 129 ->
+  lands M16 BJmp addr dest (gen_jmp M16 rel) rest.
+Proof.
+  intros rel H. unfold gen_jmp, jump_form. rewrite offset_size_1 by lia.
   destruct (sx1 (rel - 2) rest ltac:(lia)) as [T S].
-  exists {| b_kind := BJmp; b_rel := rel - 2; b_len := 2; b_opsize := opsize (bm m) false |}.
+  exists {| b_kind := BJmp; b_rel := rel - 2; b_len := 2; b_opsize := 16 |}.
   split.
-  - destruct m; cbn [bm app decode_branch decode_branch_np]; rewrite T; cbv iota beta; rewrite S; reflexivity.
+  - cbn [bm app decode_branch decode_branch_np opsize]; rewrite T; cbv iota beta; rewrite S; reflexivity.
   - cbn [b_kind b_len b_rel b_opsize bkind_eqb]. split; [reflexivity|]. split; [reflexivity|].
     unfold landing; cbn [b_len b_rel b_opsize]. f_equal. unfold rel. lia.
 Qed.
 
-(** Jcc rel8: the sixteen opcodes 70h..7Fh *)
+(* rel16, 16-bit mode *)
+Lemma jmp16_near_lands addr dest rest : let rel := dest - addr in
+  -32768 <= rel - 2 <= 32767 -> ~ (-128 <= rel - 2 <= 127) -> -32768 <= rel - 3 ->
+  lands M16 BJmp addr dest (gen_jmp M16 rel) rest.
+Proof.
+  intros rel H N H3. unfold gen_jmp, jump_form. rewrite offset_size_2 by lia.
+  destruct (sx2 (rel - 3) rest ltac:(lia)) as [T S].
+  exists {| b_kind := BJmp; b_rel := rel - 3; b_len := 3; b_opsize := 16 |}.
+  split.
+  - cbn [bm app decode_branch decode_branch_np opsize Z.eqb Pos.eqb]. rewrite T; cbv iota beta; rewrite S. reflexivity.
+  - cbn [b_kind b_len b_rel b_opsize bkind_eqb]. split; [reflexivity|]. split.
+    + unfold zlen. cbn [Datatypes.length]. rewrite le_length. reflexivity.
+    + unfold landing; cbn [b_len b_rel b_opsize]. f_equal. unfold rel. lia.
+Qed.
+
+(* 66 E9 cd, 16-bit mode, beyond 32 KiB: six bytes, 32-bit operand size *)
+Lemma jmp16_far_lands addr dest rest : let rel := dest - addr in
+  ~ (-32768 <= rel - 2 <= 32767) -> - 2 ^ 31 <= rel - 6 < 2 ^ 31 ->
+  lands M16 BJmp addr dest (gen_jmp M16 rel) rest.
+Proof.
+  intros rel N H. unfold gen_jmp, jump_form. rewrite offset_size_4 by lia.
+  destruct (sx4 (rel - 6) rest H) as [T S].
+  exists {| b_kind := BJmp; b_rel := rel - 6; b_len := 6; b_opsize := 32 |}.
+  split.
+  - cbn [bm app decode_branch decode_branch_np opsize Z.eqb Pos.eqb]. rewrite T; cbv iota beta; rewrite S. reflexivity.
+  - cbn [b_kind b_len b_rel b_opsize bkind_eqb]. split; [reflexivity|]. split.
+    + unfold zlen. cbn [Datatypes.length]. rewrite le_length. reflexivity.
+    + unfold landing; cbn [b_len b_rel b_opsize]. f_equal. unfold rel. lia.
+Qed.
+
+(* E9 cd, 32-bit mode: the one form used there *)
+Lemma jmp32_lands addr dest rest : let rel := dest - addr in - 2 ^ 31 <= rel - 5 < 2 ^ 31 ->
+  lands M32 BJmp addr dest (gen_jmp M32 rel) rest.
+Proof.
+  intros rel H. unfold gen_jmp, jump_form.
+  destruct (sx4 (rel - 5) rest H) as [T S].
+  exists {| b_kind := BJmp; b_rel := rel - 5; b_len := 5; b_opsize := 32 |}.
+  split.
+  - cbn [bm app decode_branch decode_branch_np opsize Z.eqb Pos.eqb]. rewrite T; cbv iota beta; rewrite S. reflexivity.
+  - cbn [b_kind b_len b_rel b_opsize bkind_eqb]. split; [reflexivity|]. split.
+    + unfold zlen. cbn [Datatypes.length]. rewrite le_length. reflexivity.
+    + unfold landing; cbn [b_len b_rel b_opsize]. f_equal. unfold rel. lia.
+Qed.
+
+(* every JMP, both modes, every distance below 2 GiB (one point excluded: rel-2 = -32768, where the rel16 field wraps) *)
+Lemma jmp_total_lands m addr dest rest : let rel := dest - addr in
+  - 2 ^ 31 + 6 <= rel < 2 ^ 31 -> rel - 2 <> -32768 ->
+  lands m BJmp addr dest (gen_jmp m rel) rest.
+Proof.
+  intros rel H Hx. destruct m.
+  - destruct (Z_le_dec (-32768) (rel - 2)) as [A|A]; [destruct (Z_le_dec (rel - 2) 32767) as [B|B]|].
+    + destruct (Z_le_dec (-128) (rel - 2)) as [C|C]; [destruct (Z_le_dec (rel - 2) 127) as [D|D]|].
+      * apply jmp_short_lands. fold rel. lia.
+      * apply jmp16_near_lands; fold rel; lia.
+      * apply jmp16_near_lands; fold rel; lia.
+    + apply jmp16_far_lands; fold rel; lia.
+    + apply jmp16_far_lands; fold rel; lia.
+  - apply jmp32_lands. fold rel. lia.
+Qed.
+
+(** ---------------- Jcc: the sixteen opcodes 70h..7Fh ---------------- *)
 Definition jcc_opcodes : list Z := [112; 113; 114; 115; 116; 117; 118; 119; 120; 121; 122; 123; 124; 125; 126; 127].
 
-Lemma jcc_short_lands m opc addr dest rest : In opc jcc_opcodes -> let rel := dest - addr in -126 <= rel <= 129 ->
-  lands m (BJcc (opc - 112)) addr dest (gen_jcc opc rel) rest.
+Ltac each_opcode Hin tac :=
+  unfold jcc_opcodes in Hin; cbn [In] in Hin;
+  repeat (destruct Hin as [<-|Hin]; [tac|]); try contradiction.
+
+Ltac dec_np := cbn [bm app decode_branch decode_branch_np opsize Z.eqb Pos.eqb Z.add Pos.add Pos.succ Z.modulo Z.div_eucl Z.pos_div_eucl Z.leb Z.ltb Z.compare
+                   Pos.compare Pos.compare_cont andb Z.sub Z.opp Z.pos_sub Z.succ_double Z.pred_double Z.double Pos.pred_double Z.mul Pos.mul Z.geb].
+
+Lemma jcc_short_lands opc addr dest rest : In opc jcc_opcodes -> let rel := dest - addr in -126 <= rel <= 129 ->
+  lands M16 (BJcc (opc - 112)) addr dest (gen_jcc M16 opc rel) rest.
 Proof.
-  intros Hin rel H. unfold gen_jcc. rewrite offset_size_1 by lia.
+  intros Hin rel H. unfold gen_jcc, jump_form. rewrite offset_size_1 by lia.
   destruct (sx1 (rel - 2) rest ltac:(lia)) as [T S].
-  exists {| b_kind := BJcc (opc - 112); b_rel := rel - 2; b_len := 2; b_opsize := opsize (bm m) false |}.
+  exists {| b_kind := BJcc (opc - 112); b_rel := rel - 2; b_len := 2; b_opsize := 16 |}.
   split.
-  - unfold jcc_opcodes in Hin. cbn [In] in Hin.
-    repeat (destruct Hin as [<-|Hin];
-            [destruct m; cbn [bm app decode_branch decode_branch_np Z.leb Z.compare Pos.compare Pos.compare_cont andb];
-             rewrite T; cbv iota beta; rewrite S; reflexivity|]).
-    contradiction.
+  - each_opcode Hin ltac:(dec_np; rewrite T; cbv iota beta; rewrite S; reflexivity).
   - cbn [b_kind b_len b_rel b_opsize bkind_eqb]. rewrite Z.eqb_refl.
     split; [reflexivity|]. split; [reflexivity|]. unfold landing; cbn [b_len b_rel b_opsize]. f_equal. unfold rel. lia.
 Qed.
 
-(** CALL rel16 in 16-bit mode: correct whenever the distance fits (the test is made on dest-cur-5) *)
-Lemma call16_lands addr dest rest : let rel := dest - addr in -32768 <= rel - 5 <= 32767 -> -32768 <= rel - 3 <= 32767 ->
-  lands M16 BCall addr dest (gen_call rel) rest.
+Lemma jcc16_near_lands opc addr dest rest : In opc jcc_opcodes -> let rel := dest - addr in
+  -32768 <= rel - 2 <= 32767 -> ~ (-128 <= rel - 2 <= 127) -> -32768 <= rel - 4 ->
+  lands M16 (BJcc (opc - 112)) addr dest (gen_jcc M16 opc rel) rest.
 Proof.
-  intros rel H H3. unfold gen_call.
-  replace ((-32768 <=? rel - 5) && (rel - 5 <=? 32767)) with true
-    by (symmetry; apply andb_true_intro; split; apply Z.leb_le; lia).
-  destruct (sx_le 2 (rel - 3) rest ltac:(lia)) as [T S].
-  { change (8 * Z.of_nat 2 - 1) with 15. change (2 ^ 15) with 32768. lia. }
+  intros Hin rel H N H4. unfold gen_jcc, jump_form. rewrite offset_size_2 by lia.
+  destruct (sx2 (rel - 4) rest ltac:(lia)) as [T S].
+  exists {| b_kind := BJcc (opc - 112); b_rel := rel - 4; b_len := 4; b_opsize := 16 |}.
+  split.
+  - each_opcode Hin ltac:(dec_np; rewrite T; cbv iota beta; rewrite S; reflexivity).
+  - cbn [b_kind b_len b_rel b_opsize bkind_eqb]. rewrite Z.eqb_refl. split; [reflexivity|]. split.
+    + unfold zlen. cbn [Datatypes.length]. rewrite le_length. reflexivity.
+    + unfold landing; cbn [b_len b_rel b_opsize]. f_equal. unfold rel. lia.
+Qed.
+
+Lemma jcc16_far_lands opc addr dest rest : In opc jcc_opcodes -> let rel := dest - addr in
+  ~ (-32768 <= rel - 2 <= 32767) -> - 2 ^ 31 <= rel - 7 < 2 ^ 31 ->
+  lands M16 (BJcc (opc - 112)) addr dest (gen_jcc M16 opc rel) rest.
+Proof.
+  intros Hin rel N H. unfold gen_jcc, jump_form. rewrite offset_size_4 by lia.
+  destruct (sx4 (rel - 7) rest H) as [T S].
+  exists {| b_kind := BJcc (opc - 112); b_rel := rel - 7; b_len := 7; b_opsize := 32 |}.
+  split.
+  - each_opcode Hin ltac:(dec_np; rewrite T; cbv iota beta; rewrite S; reflexivity).
+  - cbn [b_kind b_len b_rel b_opsize bkind_eqb]. rewrite Z.eqb_refl. split; [reflexivity|]. split.
+    + unfold zlen. cbn [Datatypes.length]. rewrite le_length. reflexivity.
+    + unfold landing; cbn [b_len b_rel b_opsize]. f_equal. unfold rel. lia.
+Qed.
+
+Lemma jcc32_lands opc addr dest rest : In opc jcc_opcodes -> let rel := dest - addr in - 2 ^ 31 <= rel - 6 < 2 ^ 31 ->
+  lands M32 (BJcc (opc - 112)) addr dest (gen_jcc M32 opc rel) rest.
+Proof.
+  intros Hin rel H. unfold gen_jcc, jump_form.
+  destruct (sx4 (rel - 6) rest H) as [T S].
+  exists {| b_kind := BJcc (opc - 112); b_rel := rel - 6; b_len := 6; b_opsize := 32 |}.
+  split.
+  - each_opcode Hin ltac:(dec_np; rewrite T; cbv iota beta; rewrite S; reflexivity).
+  - cbn [b_kind b_len b_rel b_opsize bkind_eqb]. rewrite Z.eqb_refl. split; [reflexivity|]. split.
+    + unfold zlen. cbn [Datatypes.length]. rewrite le_length. reflexivity.
+    + unfold landing; cbn [b_len b_rel b_opsize]. f_equal. unfold rel. lia.
+Qed.
+
+Lemma jcc_total_lands m opc addr dest rest : In opc jcc_opcodes -> let rel := dest - addr in
+  - 2 ^ 31 + 7 <= rel < 2 ^ 31 -> ~ (-32768 <= rel - 2 <= -32767) ->
+  lands m (BJcc (opc - 112)) addr dest (gen_jcc m opc rel) rest.
+Proof.
+  intros Hin rel H Hx. destruct m.
+  - destruct (Z_le_dec (-32768) (rel - 2)) as [A|A]; [destruct (Z_le_dec (rel - 2) 32767) as [B|B]|].
+    + destruct (Z_le_dec (-128) (rel - 2)) as [C|C]; [destruct (Z_le_dec (rel - 2) 127) as [D|D]|].
+      * apply jcc_short_lands; [exact Hin|]. fold rel. lia.
+      * apply jcc16_near_lands; [exact Hin| | |]; fold rel; lia.
+      * apply jcc16_near_lands; [exact Hin| | |]; fold rel; lia.
+    + apply jcc16_far_lands; [exact Hin| |]; fold rel; lia.
+    + apply jcc16_far_lands; [exact Hin| |]; fold rel; lia.
+  - apply jcc32_lands; [exact Hin|]. fold rel. lia.
+Qed.
+
+(** ---------------- CALL ---------------- *)
+Lemma call16_lands addr dest rest : let rel := dest - addr in -32768 <= rel - 3 <= 32767 ->
+  lands M16 BCall addr dest (gen_call M16 rel) rest.
+Proof.
+  intros rel H. unfold gen_call.
+  replace ((-32768 <=? rel - 3) && (rel - 3 <=? 32767)) with true by (symmetry; apply andb_true_intro; split; apply Z.leb_le; lia).
+  destruct (sx2 (rel - 3) rest H) as [T S].
   exists {| b_kind := BCall; b_rel := rel - 3; b_len := 3; b_opsize := 16 |}.
   split.
   - cbn [bm app decode_branch decode_branch_np opsize Z.eqb Pos.eqb]. rewrite T; cbv iota beta; rewrite S. reflexivity.
@@ -99,20 +231,44 @@ Proof.
     + unfold landing; cbn [b_len b_rel b_opsize]. f_equal. unfold rel. lia.
 Qed.
 
-(** JMP rel16 in 16-bit mode (backward or to a known address beyond rel8) *)
-Lemma jmp16_near_lands addr dest rest : let rel := dest - addr in
-  -32768 <= rel - 2 <= 32767 -> ~ (-128 <= rel - 2 <= 127) -> -32768 <= rel - 3 ->
-  lands M16 BJmp addr dest (gen_jmp M16 rel) rest.
+Lemma call16_far_lands addr dest rest : let rel := dest - addr in ~ (-32768 <= rel - 3 <= 32767) -> - 2 ^ 31 <= rel - 6 < 2 ^ 31 ->
+  lands M16 BCall addr dest (gen_call M16 rel) rest.
 Proof.
-  intros rel H N H3. unfold gen_jmp. rewrite offset_size_2 by lia.
-  destruct (sx_le 2 (rel - 3) rest ltac:(lia)) as [T S].
-  { change (8 * Z.of_nat 2 - 1) with 15. change (2 ^ 15) with 32768. lia. }
-  exists {| b_kind := BJmp; b_rel := rel - 3; b_len := 3; b_opsize := 16 |}.
+  intros rel N H. unfold gen_call.
+  replace ((-32768 <=? rel - 3) && (rel - 3 <=? 32767)) with false.
+  2:{ symmetry. destruct (-32768 <=? rel - 3) eqn:A; destruct (rel - 3 <=? 32767) eqn:B; cbn [andb]; try reflexivity.
+      apply Z.leb_le in A. apply Z.leb_le in B. lia. }
+  destruct (sx4 (rel - 6) rest H) as [T S].
+  exists {| b_kind := BCall; b_rel := rel - 6; b_len := 6; b_opsize := 32 |}.
   split.
   - cbn [bm app decode_branch decode_branch_np opsize Z.eqb Pos.eqb]. rewrite T; cbv iota beta; rewrite S. reflexivity.
   - cbn [b_kind b_len b_rel b_opsize bkind_eqb]. split; [reflexivity|]. split.
     + unfold zlen. cbn [Datatypes.length]. rewrite le_length. reflexivity.
     + unfold landing; cbn [b_len b_rel b_opsize]. f_equal. unfold rel. lia.
+Qed.
+
+Lemma call32_lands addr dest rest : let rel := dest - addr in - 2 ^ 31 <= rel - 5 < 2 ^ 31 ->
+  lands M32 BCall addr dest (gen_call M32 rel) rest.
+Proof.
+  intros rel H. unfold gen_call.
+  destruct (sx4 (rel - 5) rest H) as [T S].
+  exists {| b_kind := BCall; b_rel := rel - 5; b_len := 5; b_opsize := 32 |}.
+  split.
+  - cbn [bm app decode_branch decode_branch_np opsize Z.eqb Pos.eqb]. rewrite T; cbv iota beta; rewrite S. reflexivity.
+  - cbn [b_kind b_len b_rel b_opsize bkind_eqb]. split; [reflexivity|]. split.
+    + unfold zlen. cbn [Datatypes.length]. rewrite le_length. reflexivity.
+    + unfold landing; cbn [b_len b_rel b_opsize]. f_equal. unfold rel. lia.
+Qed.
+
+Lemma call_total_lands m addr dest rest : let rel := dest - addr in - 2 ^ 31 + 6 <= rel < 2 ^ 31 ->
+  lands m BCall addr dest (gen_call m rel) rest.
+Proof.
+  intros rel H. destruct m.
+  - destruct (Z_le_dec (-32768) (rel - 3)) as [A|A]; [destruct (Z_le_dec (rel - 3) 32767) as [B|B]|].
+    + apply call16_lands. fold rel. lia.
+    + apply call16_far_lands; fold rel; lia.
+    + apply call16_far_lands; fold rel; lia.
+  - apply call32_lands. fold rel. lia.
 Qed.
 
 (** the condition-code table of the implementation (regenerated from x86gen_jmp.go on every run)
@@ -144,19 +300,3 @@ Proof.
   repeat (destruct Hcases as [->|Hcases]; [cbn; tauto|]). subst; cbn; tauto.
 Qed.
 
-(* the boundary that used to wrap (target 127/128 bytes before the start of the jump) now takes the near form and lands *)
-Lemma jmp_backward_boundary_lands : forall addr rest, lands M16 BJmp addr (addr - 128) (gen_jmp M16 (-128)) rest /\ lands M16 BJmp addr (addr - 127) (gen_jmp M16 (-127)) rest.
-Proof.
-  intros addr rest. split.
-  - replace (-128) with ((addr - 128) - addr) by lia. apply jmp16_near_lands; lia.
-  - replace (-127) with ((addr - 127) - addr) by lia. apply jmp16_near_lands; lia.
-Qed.
-
-Lemma jmp16_total_lands addr dest rest : let rel := dest - addr in -32767 <= rel - 2 <= 32767 ->
-  lands M16 BJmp addr dest (gen_jmp M16 rel) rest.
-Proof.
-  intros rel H. destruct (Z_le_dec (-128) (rel - 2)) as [Hl|Hl]; [destruct (Z_le_dec (rel - 2) 127) as [Hh|Hh]|].
-  - apply jmp_short_lands. fold rel. lia.
-  - apply jmp16_near_lands; fold rel; lia.
-  - apply jmp16_near_lands; fold rel; lia.
-Qed.
